@@ -471,3 +471,76 @@ def r8(R):
             'connection cannot make the ghost (TypeError) and every object '
             'referring to it becomes unloadable' % (ast.unparse(a), meta),
             key='resolved record not started with the loaded metadata')
+
+
+# ------------------------------------------------------------------ C10.R9
+@rule('C10.R9', 'a class is remembered as unresolvable only for having no '
+      'resolver: no entry is made in the process-wide table on a path on '
+      'which the class\'s resolver was called (a refusal concerns the three '
+      'states at hand, not the class)', min_instances=1)
+def r9(R):
+    f = R.prog.func(TRY)
+    g, b, F = R.cfg(f, None, max_depth=0)
+    resolver = set()
+    for c in walk_local(f.node):
+        if isinstance(c, ast.Call):
+            fn = c.func
+            if isinstance(fn, ast.Attribute) and \
+                    fn.attr == '_p_resolveConflict':
+                resolver.add(id(c))
+            elif isinstance(fn, ast.Name) and (
+                    'attr', '_p_resolveConflict') in provenance(fn, g.root, F):
+                resolver.add(id(c))
+    n = [0]
+
+    def is_entry(op):
+        def table(x):
+            return x.split('.')[-1] == '_unresolvable'
+        return bool(op.kind in ('setitem', 'augitem') and op.path and
+                    table(op.path[-1]) or (
+                        op.kind == 'call' and op.path and
+                        len(op.path) >= 2 and table(op.path[-2]) and
+                        op.path[-1] in ('setdefault', 'update',
+                                        '__setitem__')))
+
+    def edge(node, st, lab, tgt):
+        if not st and any(op.kind == 'call' and id(op.ast) in resolver
+                          for op in F.ops(node)):
+            return True           # whether it returned or raised
+        return st
+
+    def at(node, st):
+        for op in F.ops(node):
+            if is_entry(op):
+                n[0] += 1
+                if st:
+                    return Violation(
+                        'tryToResolveConflict enters the class in '
+                        '_unresolvable after its resolver was called: one '
+                        'refusal (a ConflictError raised by '
+                        '_p_resolveConflict for states it cannot merge) '
+                        'makes every later conflict on an instance of the '
+                        'class fail without the resolver being asked, for '
+                        'the rest of the process')
+        return st
+
+    vs, stats = explore(g, False, at=at, edge=edge)
+    R.count(stats)
+    # the entry made today sits in the handler of an attribute lookup, which
+    # the graph (exception edges from calls and raises only) does not reach:
+    # the entries are counted in the syntax tree, the paths decide
+    n[0] = sum(1 for s_ in walk_local(f.node)
+               if isinstance(s_, (ast.Assign, ast.AugAssign))
+               for t in (s_.targets if isinstance(s_, ast.Assign)
+                         else [s_.target])
+               if isinstance(t, ast.Subscript) and
+               isinstance(t.value, ast.Name) and
+               t.value.id == '_unresolvable')
+    R.instance('tryToResolveConflict', resolver_calls=len(resolver),
+               table_entries=n[0])
+    R.require(resolver, 'no call of the class\'s resolver found')
+    R.require(n[0] >= 1 or vs, 'tryToResolveConflict no longer remembers '
+              'classes without a resolver')
+    for v in vs[:1]:
+        R.violation(v.node, v.message, g, v.path,
+                    key='class remembered as unresolvable after a refusal')
